@@ -76,7 +76,7 @@ def run(tier, seed):
         "samples": [h["hist"] for h in hists[:2]] + ([hists[-1]["hist"]] if hists else []),
         "evaluations": len(hists) * 6 + res["grid_evaluations"], "distinct_nontrivial": len(hists),
         "rule": "every history over {new(2 seeds), reseed(2 data), draw(base/quadratic/cubic), check_leading_zeros(3 nonces), "
-                "draw_integers(3 nonces (one small, two above every modulus) x {1,3} values, domain 2^1..2^32)} of the stated length, run for each of the six hash "
+                "draw_integers(3 nonces (one small, two above every modulus; over the 62-bit field the two are congruent modulo it) x {1,3} values, domain 2^1..2^32)} of the stated length, run for each of the six hash "
                 "functions; plus the (count, domain size) grid of draw_integers",
         "exhaustive": False, "trace_events": events, "hashers_accepted": accepted,
         "known_finding_occurrences": v.n_known, "new_violations": v.n_new,
